@@ -53,6 +53,7 @@ fn run_line(line: &str) -> String {
         "I" => intern_cases::run_case(&args),
         "K" => conc_cases::run_k(&args),
         "U" => conc_cases::run_l(&args),
+        "R" => conc_cases::run_r(&args),
         "E" => example_cases::run_e(&args),
         "Q" => token_cases::run_q(&args),
         "X" => text_cases::run_x(&args),
@@ -88,5 +89,7 @@ fn main() {
             Err(c) => format!("HARNESS-PANIC:{c}"),
         };
         writeln!(out, "{r}").unwrap();
+        // every result reaches the file before the next case runs: if a case kills the process, the runner knows which
+        out.flush().unwrap();
     }
 }
